@@ -187,6 +187,7 @@ fn worker(
     }
     let first_sig: RefCell<Option<String>> = RefCell::new(None);
     let nsamples = Cell::new(0usize);
+    let trace = std::env::var("PVH_TRACE").is_ok();
     let config = Config {
         cases: cases.min(u32::MAX as u64) as u32,
         failure_persistence: None,
@@ -204,6 +205,9 @@ fn worker(
             strict: false,
             want_sample: sampler && !failed_before && nsamples.get() < 8,
         };
+        if trace {
+            eprintln!("TRACE {} {}", fam_name, hex(&bytes));
+        }
         let info = fam_run(&bytes, &ctx);
         if !failed_before {
             if info.nontrivial && info.sample.is_some() && info.skip.is_none() {
@@ -441,8 +445,22 @@ pub fn run_property(prop: &PropertyDef, tier: Tier, seed: u64) -> RunResult {
     }
 
     // 4. generated families
+    // debugging aids (not used by the registered commands): PVH_FAMILY=<name> PVH_CASES=<n>
+    let only = std::env::var("PVH_FAMILY").ok();
+    let cases_override = std::env::var("PVH_CASES").ok().and_then(|s| s.parse::<u64>().ok());
     for fam in &prop.families {
-        let s = run_family(fam, prop.id, tier, seed);
+        if let Some(o) = &only {
+            if o != fam.name {
+                continue;
+            }
+        }
+        let s = match cases_override {
+            Some(n) => {
+                let f2 = Family { name: fam.name, max_len: fam.max_len, quick: n, thorough: n, run: fam.run };
+                run_family(&f2, prop.id, tier, seed)
+            }
+            None => run_family(fam, prop.id, tier, seed),
+        };
         stats.merge(s);
     }
 
